@@ -311,7 +311,6 @@ PROPS["C13"] = mklib("C13", "lib13", GL.lib13_fixed(), GL.gen13, 150, 6000, GL.o
 STATED_NOT_PROVED = {
     "C01": ["programs with writes are covered for STATIC roles (C01_full_*: WellFormedBody, WriteExact); role-changing programs with writes: no theorem (findings K3/K4)",
             "failing stampers excluded by StampTotal (finding K5)"],
-    "C03": ["programs with writes: the closure theorem C03_sources is proved for write-free programs (hypotheses ShallowReq, Reported incl. write stamps, NoOrphan)"],
     "C04": ["C04_bu_once needs NoOrphan (no aborted task with leftover dependencies): without it the real code executes a task twice (finding K7)"],
     "C05": ["global clause 'a build that returns leaves every reader dependent on the generator' is false on the real code (finding K4; kernel-checked counterexample C05_history_breaks_noHidden)"],
     "C13": ["OS behaviour (metadata, read_dir order, stale handles) is modelled, not proved", "SHA-256 injectivity is a hypothesis"],
